@@ -245,7 +245,8 @@ Reset ==
 (* rules and the observed admission state of one torrent:                  *)
 (*   sw     [out, inc, trk]  blocklist switches for outgoing / incoming    *)
 (*          connections and trackers                                       *)
-(*   self   <<ip, port>>     the torrent's own listening address           *)
+(*   self   {<<ip, port>>}   the torrent's own listening addresses (the    *)
+(*          address it listens on; its external IP once learned, same port)*)
 (*   conn   IPs the client is connected or connecting to                   *)
 (*   banned IPs banned for sending corrupt data                            *)
 (* Each returns the tag of the violated obligation ("" if none) for one    *)
@@ -258,7 +259,7 @@ Reset ==
 \* @obligation C18.contact.dial.banned   never dials an IP banned for sending corrupt data
 DialViol(ip, port, sw, self, conn, banned) ==
     IF port = 0 THEN "C18.contact.dial.port0"
-    ELSE IF <<ip, port>> = self THEN "C18.contact.dial.self"
+    ELSE IF <<ip, port>> \in self THEN "C18.contact.dial.self"
     ELSE IF sw.out /\ Blocked(ip, rules) THEN "C18.contact.dial.blocked"
     ELSE IF ip \in conn THEN "C18.contact.dial.dup"
     ELSE IF ip \in banned THEN "C18.contact.dial.banned"
